@@ -30,5 +30,13 @@ CHECKS = {
              "pairs x 4 limits: returned point is the accepted iterate or meets the criterion itself, else the helper raised. approx_fprime: 5 functions x 3 methods x 3 steps within C*eps^p.",
         note="Trusted: the harness's own evaluation of the user functions; the stated form of the criteria (documented in the helpers). Problems outside the families are not covered.",
         design="§3 C22"),
+    "C20": dict(
+        level="exploration", engine="grid",
+        technique="exhaustive enumeration of (t0, dt, k) time grids x solvers and of systems x solvers on the real solvers; contract checked on every returned Solution",
+        text="Every (t0, dt, t1=t0+k*dt and non-multiples) grid of the alphabet (3 x 8 x 16-34) is run through the six dynamic solvers on a free point mass: "
+             "grid starts at t0, advances by dt, ends at the first grid point at or after t1 (decimal multiples that are not binary multiples included). For 4 systems x all solvers "
+             "(+Newton, Riks): every array field has len(t) rows and the system dimension as width, list(sol) equals the rows, dill save/load preserves every field bit-exactly.",
+        note="Trusted: a grid point within 1e-9*dt of t1 counts as 'at t1'. Truncated runs are not judged here (C21). Other systems/horizons are outside the alphabet.",
+        design="§3 C20"),
 }
 NOT_APPLICABLE = {}
